@@ -14,7 +14,7 @@ SEQ_NOTE = ("Trusted base: the reference model written in the check (slices/maps
 SCHED = "stateless model checking: source-instrumented real code under a controlled scheduler, deviation-bounded exhaustive DFS over schedules (bounds iterated)"
 CHECKS = {
  "C01": dict(cat="exploration", tech=SCHED, ref="§4 C01",
-             text="All schedules up to the deviation bound of 12 fan-out/fan-in constructs x input length x width: output multiset equals input, order where required, no deadlock.", note=SCHED_NOTE),
+             text="All schedules up to the deviation bound of 23 fan-out/fan-in constructs (incl. merges with an input that carries a recorded error, Split+Merge, two Splits of one channel iterator, worker counts below one, Split consumed with Next/Value) x input length x width, with race-directed preemption: output multiset equals input, order where required, no deadlock.", note=SCHED_NOTE),
  "C02": dict(cat="model_checking", tech="exhaustive enumeration of operator trees x inputs x injected skip/error/EOF positions vs a pure functional evaluator", ref="§4 C02",
              text="Every pipeline of the enumerated families (sources x unary chains x n-ary merges x sinks) on every input over {0,1,2} with every single (thorough: double) injection yields exactly the sequence of the functional specification.", note=SEQ_NOTE),
  "C03": dict(cat="fault_enumeration", tech=SCHED + "; fault matrix construct x configuration x fault position x failure kind", ref="§4 C03",
@@ -30,29 +30,29 @@ CHECKS = {
  "C08": dict(cat="exploration", tech=SCHED, ref="§4 C08",
              text="All schedules up to the bound of broker programs (5 back-ends x dispatch options x 1-2 publishers x 1-2 messages x 2 subscribers, static/late subscribe/unsubscribe; churn family with 3 subscribers, unsubscribe during dispatch, redundant/foreign/nil Unsubscribe): window delivery exactly once, common order with one worker, never invented or duplicated.", note=SCHED_NOTE),
  "C09": dict(cat="exploration", tech=SCHED, ref="§4 C09",
-             text="All schedules up to the bound of bursts, Stop/cancel/deadline-expiry races, concurrent Wait, client calls with cancelled contexts, and wedged brokers (subscriber never reads, backlog, 2 dispatch workers with buffers) on 4 back-ends: no stall at quiescence, Wait returns, every goroutine exits, broker survives cancelled client calls.", note=SCHED_NOTE),
+             text="All schedules up to the bound of bursts, Stop/cancel/deadline-expiry races, concurrent Wait, client calls with cancelled contexts, and wedged brokers (subscriber never reads, backlog, 2 dispatch workers with buffers), load-shedding single-slot LIFO and hard-limit Queue brokers, and back-ends closed by their owner, on 4 back-ends: no stall at quiescence, Wait returns, every goroutine exits, broker survives cancelled client calls.", note=SCHED_NOTE),
  "C10": dict(cat="fault_enumeration", tech=SCHED + "; fault matrix {absent,ok,error,panic}^3 x handler x end", ref="§4 C10",
-             text="Every cell of the 4x4x4x3x3 lifecycle matrix and 1-3 concurrent Start/Close/Wait callers under every schedule up to the bound: phase counts and order, exactly one successful Start, Wait completeness, Running() false after Wait.", note=SCHED_NOTE),
+             text="Every cell of the 4x4x4x4x3 lifecycle matrix (handler incl. one that calls Wait itself) and 1-3 concurrent Start/Close/Wait callers followed by two concurrent late Starts under every schedule up to the bound: phase counts and order, exactly one successful Start, Wait completeness, Running() false after Wait.", note=SCHED_NOTE),
  "C11": dict(cat="exploration", tech=SCHED, ref="§4 C11",
-             text="All schedules up to the bound of orchestrator (service state at Add x add time x outcome), Group, WorkerPool/HandlerWorkerPool and Cleanup programs: start at most once, await all, errors collected, accepted jobs/cleanups run exactly once.", note=SCHED_NOTE),
+             text="All schedules up to the bound of orchestrator (service state at Add x add time x outcome incl. context-error-plus-failing-hook services), Group (incl. members started or finished elsewhere), WorkerPool/HandlerWorkerPool and Cleanup programs: start at most once, await all, errors collected, accepted jobs/cleanups run exactly once.", note=SCHED_NOTE),
  "C12": dict(cat="model_checking", tech="exhaustive enumeration of error-expression trees vs an independent constituent model + " + SCHED + " for the Collector", ref="§4 C12",
-             text="All error trees up to the reported depth: nil-iff, single identity, errors.Is/As for every constituent, Unwind multiset/order; plus every schedule up to the bound of concurrent Collector Add/Resolve/Len/Iterator programs (contents, nil-iff, race oracle).", note=SEQ_NOTE + " " + SCHED_NOTE),
+             text="All error trees up to the reported depth over 24 constructors (incl. collector helper entry points, user aggregates with an empty slot, Unwind-only aggregates, the inner layer of an aggregate): nil-iff, single identity, errors.Is/As for every constituent, Unwind multiset/order; plus every schedule up to the bound of concurrent Collector Add/Resolve/Len/Iterator programs (contents, nil-iff, race oracle).", note=SEQ_NOTE + " " + SCHED_NOTE),
  "C13": dict(cat="exploration", tech=SCHED + " with a vector-clock happens-before race oracle over instrumented plain accesses", ref="§2.4, §4 C13",
              text="Every unordered pair of public operations of each concurrency-safe type (Queue, Deque, their distributors/iterators, Broker in 5 configurations, WaitGroup, Collector, adt.Map/Atomic/Synchronized/Once/Pool, synchronized Set incl. Equal/Extend/Sort with a second set, 21 function wrappers) in each pre-state, two threads, every schedule up to the bound: no two conflicting accesses unordered by happens-before.", note=SCHED_NOTE + " Access instrumentation covers addressable fields, captured locals, assigned package variables, slice/array elements, maps and pointer dereferences of the instrumented packages."),
  "C14": dict(cat="exploration", tech=SCHED, ref="§4 C14",
              text="All schedules up to the bound of waiters x workers x cancellation (own and sibling contexts) x reuse x Launch/DoTimes/StartGroup/Operation.Add/Processor.Add accounting (outstanding work, n in -2..2) x observer programs over the real fun.WaitGroup.", note=SCHED_NOTE),
  "C15": dict(cat="exploration", tech=SCHED + "; Retry scripts and hook orders enumerated exhaustively", ref="§4 C15",
-             text="All schedules up to the bound of 2-4 concurrent callers of every Once/Limit/Lock wrapper, WithLock over one mutex shared by wrappers of different kinds, waiter-vs-completion for Launch/Signal/Background/StartGroup, all Retry result scripts up to n+1, hook orders.", note=SCHED_NOTE),
+             text="All schedules up to the bound of 2-4 concurrent callers of every Once/Limit/Lock wrapper (incl. callers whose context is over), WithLock over one mutex shared by wrappers of different kinds, re-waits and sibling waiters, a Retry value used twice, Join with a reused slice, waiter-vs-completion for Launch/Signal/Background/StartGroup, all Retry result scripts up to n+1, hook orders.", note=SCHED_NOTE),
  "C16": dict(cat="model_checking", tech="explicit-state BFS over operation histories of the real List/Stack vs a sequence model", ref="§4 C16",
-             text="Every operation history up to depth 5 (quick) / 7 (thorough) over two lists / stacks with element handles: all traversals, Len, In/Ok, rejected operations, against a slice model.", note=SEQ_NOTE),
+             text="Every operation history up to depth 5 (quick) / 7 (thorough) over two lists / stacks with element handles (incl. Element.UnmarshalJSON on members and on the root sentinel): all traversals, Len, In/Ok, rejected operations, against a slice model.", note=SEQ_NOTE),
  "C17": dict(cat="model_checking", tech="exhaustive input enumeration of sort/IsSorted/Heap vs independent oracle + " + SCHED + " for goroutines working on private lists", ref="§4 C17",
              text="Every sequence over {-1,0,1,2} up to length 6/8 x three orderings: permutation, sortedness, stability, usability after sort (also through the root, drained and refilled), IsSorted iff, Heap order; plus every schedule up to the bound of two goroutines that each sort / test / heap-order a list of their own (answers must be the sequential ones).", note=SEQ_NOTE + " " + SCHED_NOTE),
  "C18": dict(cat="model_checking", tech="explicit-state BFS over Set operation histories vs a reference set + " + SCHED + " with a brute-force sequential-witness check of every history", ref="§4 C18",
              text="Every operation history up to depth 6/8 on 4 set kinds agrees with a reference set; every history of 2-3 thread programs on a synchronized set under every schedule up to the bound has a sequential witness; race oracle on.", note=SEQ_NOTE + " " + SCHED_NOTE),
  "C19": dict(cat="model_checking", tech="exhaustive enumeration of histogram shapes x value multisets vs a sorted-slice oracle", ref="§4 C19",
-             text="All (shape, multiset) cases of the reported grid: record in range succeeds, TotalCount, quantile precision bound, Min/Max, Export/Import/Merge equality, no invariant panic.", note=SEQ_NOTE),
+             text="All (shape, multiset) cases of the reported grid: record in range succeeds, TotalCount, quantile precision bound, Min/Max, Export/Import/Merge equality (and equal answers from Equal histograms), Merge twice, Reset and reuse, RecordCorrectedValue against one-by-one recording, no invariant panic.", note=SEQ_NOTE),
  "C20": dict(cat="exploration", tech=SCHED, ref="§4 C20",
-             text="All schedules up to the bound of 1-2 iterators x additions / removals / Close / cancel on Queue and Deque iterator flavours: in-order, nothing skipped, not parked with an unseen item, EOF after Close, no panic under churn.", note=SCHED_NOTE),
+             text="All schedules up to the bound of 1-2 iterators x additions / removals / Close (also immediately after the last addition) / cancel on Queue and Deque iterator flavours: in-order, nothing skipped, not parked with an unseen item, EOF after Close and never while open, no foreign value and no panic under churn.", note=SCHED_NOTE),
 }
 
 NA_REASON = "check under construction (not yet registered)"
